@@ -99,6 +99,19 @@ class _Exprs(ast.NodeTransformer):
             return ast.copy_location(ast.Constant(value=node.left.value ** node.right.value), node)
         return node
 
+    def visit_Call(self, node: ast.Call) -> ast.AST:
+        self.generic_visit(node)
+        # f(*(a, b), c)  ->  f(a, b, c)   (a starred tuple / list display is its elements)
+        if any(isinstance(a, ast.Starred) and isinstance(a.value, (ast.Tuple, ast.List)) and not any(isinstance(x, ast.Starred) for x in a.value.elts) for a in node.args):
+            new_args: list[ast.expr] = []
+            for a in node.args:
+                if isinstance(a, ast.Starred) and isinstance(a.value, (ast.Tuple, ast.List)) and not any(isinstance(x, ast.Starred) for x in a.value.elts):
+                    new_args += list(a.value.elts)
+                else:
+                    new_args.append(a)
+            node.args = new_args
+        return node
+
     def visit_UnaryOp(self, node: ast.UnaryOp) -> ast.AST:
         self.generic_visit(node)
         # not (x % k)  ->  x % k == 0   (numbers)
